@@ -223,6 +223,15 @@ where
         let a: Vec<(Option<usize>, usize)> = DfsPred::new(g, sources.iter().copied()).collect();
         let b: Vec<(Option<usize>, usize)> = DfsPred::new(g, lazy()).collect();
         ensure!(a == b, "DfsPred<{name}>: sources passed through `filter` give {b:?}, passed directly {a:?}");
+        let h = gen::hint_pick(sources.len(), a.len() + sources.iter().sum::<usize>());
+        let b: Vec<(Option<usize>, usize)> = DfsPred::new(g, gen::hinted(sources.to_vec(), h)).collect();
+        ensure!(a == b, "DfsPred<{name}>: sources from an iterator with size_hint {h:?} give {b:?}, passed directly {a:?}");
+        let a: Vec<usize> = Dfs::new(g, sources.iter().copied()).collect();
+        let b: Vec<usize> = Dfs::new(g, gen::hinted(sources.to_vec(), h)).collect();
+        ensure!(a == b, "Dfs<{name}>: sources from an iterator with size_hint {h:?} give {b:?}, passed directly {a:?}");
+        let a: Vec<(usize, usize)> = DfsDist::new(g, sources.iter().copied()).collect();
+        let b: Vec<(usize, usize)> = DfsDist::new(g, gen::hinted(sources.to_vec(), h)).collect();
+        ensure!(a == b, "DfsDist<{name}>: sources from an iterator with size_hint {h:?} give {b:?}, passed directly {a:?}");
     }
     let mut it = Dfs::new(g, sources.iter().copied());
     let first: Vec<Item> = it
@@ -400,7 +409,7 @@ impl Prop for C06 {
     type Case = Case;
     const ID: &'static str = "C06";
     const NUM: u64 = 6;
-    const RULE: &'static str = "random leg: digraphs on 0..order (order 1..16 quick / 1..60 thorough; uniform densities and 15 structured families incl. out-forests and paths) in all five representations with empty/single/multiple distinct sources; enum leg: every digraph of order <=3 (quick) / <=4 (thorough) times a fixed list of source lists. About one random case in 25 has a large order (17..140, weighted towards 63..66, 96, 127..130, 140; at most 700 arcs). Clones taken mid-iteration and clone_from onto an iterator over the converse digraph must continue identically; complete traversals are also driven through next()-then-count/last/fold/nth/collect (order <= 40). Non-trivial = some reachable vertex has two in-arcs from reachable vertices (it can be pushed twice), or >=2 sources with one inside another's tree; distinct = distinct serialised case. Cases whose collect() output stops early exactly where a literal simulation of the recorded defect (KF-C06-1) stops are counted as excluded_known and searched behind by resuming next().";
+    const RULE: &'static str = "random leg: digraphs on 0..order (order 1..16 quick / 1..60 thorough; uniform densities and 15 structured families incl. out-forests and paths) in all five representations with empty/single/multiple distinct sources; enum leg: every digraph of order <=3 (quick) / <=4 (thorough) times a fixed list of source lists. About one random case in 25 has a large order (17..140, weighted towards 63..66, 96, 127..130, 140; at most 700 arcs). Clones taken mid-iteration and clone_from onto an iterator over the converse digraph must continue identically; complete traversals are also driven through next()-then-count/last/fold/nth/collect (order <= 40). Sources are also passed through `filter` and an iterator with another honest size_hint shape. Non-trivial = some reachable vertex has two in-arcs from reachable vertices (it can be pushed twice), or >=2 sources with one inside another's tree; distinct = distinct serialised case. Cases whose collect() output stops early exactly where a literal simulation of the recorded defect (KF-C06-1) stops are counted as excluded_known and searched behind by resuming next().";
     const ASSUMPTIONS: &'static [&'static str] = &[
         "which out-neighbour is taken first and which source roots first are free: the oracle is a predicate over the output",
         "sources are distinct and in range",
